@@ -6,9 +6,12 @@
 (* by anybody).  When all handlers have run and no wait is outstanding the completion callback   *)
 (* runs, once.  Tasks of different queue events interleave freely.                                *)
 EXTENDS Integers, Sequences, FiniteSets, TLC
-CONSTANTS Ev, Hid, Prio, MaxTasks, MaxOps
-VARIABLES reg,     \* registered handlers: set of [id, ev, prio]
-          tasks,   \* sequence of [ev, todo, st]   st: "run" | "sleep" | "done"
+CONSTANTS Ev, Hid, Prio, MaxTasks, MaxOps,
+          HkSet,   \* handler registered with its own kwarg a="h" (TRUE) or without (FALSE); posts carry a="p"
+          CondSet, \* handler condition: -1 none, else the value the posted kwarg c must have
+          CSet     \* values of the posted kwarg c
+VARIABLES reg,     \* registered handlers: set of [id, ev, prio, hk, cond]
+          tasks,   \* sequence of [ev, c, todo, st]   st: "posted" | "run" | "sleep" | "done"
           snapp,   \* sequence (per task): snapshot as set of handler records
           out,     \* outstanding waits: set of <<task, handler id>>
           clr,     \* waits that have been cleared (a QueuedEvent is waited on at most once)
@@ -16,35 +19,42 @@ VARIABLES reg,     \* registered handlers: set of [id, ev, prio]
           nops, act
 vars == <<reg, tasks, snapp, out, clr, inh, nops, act>>
 NoH == <<0, "">>
+NoCondSet == {-1}          \* (cfg files cannot hold negative numbers)
+FullCondSet == {-1, 1}
 Init == reg = {} /\ tasks = <<>> /\ snapp = <<>> /\ out = {} /\ clr = {} /\ inh = NoH /\ nops = 0 /\ act = [op |-> "init"]
 Ids(S) == {h.id : h \in S}
 Budget == nops < MaxOps /\ nops' = nops + 1
 \* (registrations are identified by fresh keys: an id is not reused while a dispatch that saw it is in flight)
-AddQ(h, e, p) == /\ Budget /\ h \notin Ids(reg) /\ (\A k \in DOMAIN tasks : tasks[k].st # "done" => h \notin Ids(snapp[k]))
-                 /\ reg' = reg \cup {[id |-> h, ev |-> e, prio |-> p]}
-                 /\ act' = [op |-> "qadd", h |-> h, ev |-> e, prio |-> p] /\ UNCHANGED <<tasks, snapp, out, clr, inh>>
+AddQ(h, e, p, hk, cond) == /\ Budget /\ h \notin Ids(reg) /\ (\A k \in DOMAIN tasks : tasks[k].st # "done" => h \notin Ids(snapp[k]))
+                 /\ reg' = reg \cup {[id |-> h, ev |-> e, prio |-> p, hk |-> hk, cond |-> cond]}
+                 /\ act' = [op |-> "qadd", h |-> h, ev |-> e, prio |-> p, hk |-> hk, cond |-> cond] /\ UNCHANGED <<tasks, snapp, out, clr, inh>>
 RemoveQ(h) == /\ Budget /\ h \in Ids(reg) /\ reg' = {x \in reg : x.id # h}
               /\ act' = [op |-> "qremove", h |-> h] /\ UNCHANGED <<tasks, snapp, out, clr, inh>>
 \* post_queue from anywhere (top level or from inside a handler)
-PostQ(e) == /\ Budget /\ Len(tasks) < MaxTasks
-            /\ tasks' = Append(tasks, [ev |-> e, todo |-> {}, st |-> "posted"])
+PostQ(e, c) == /\ Budget /\ Len(tasks) < MaxTasks
+            /\ tasks' = Append(tasks, [ev |-> e, c |-> c, todo |-> {}, st |-> "posted"])
             /\ snapp' = Append(snapp, {})
-            /\ act' = [op |-> "qpost", ev |-> e] /\ UNCHANGED <<reg, out, clr, inh>>
-\* the event bus gets to the posted queue event: its dispatcher starts with the handlers registered now
+            /\ act' = [op |-> "qpost", ev |-> e, c |-> c] /\ UNCHANGED <<reg, out, clr, inh>>
+\* the event bus gets to the posted queue event: its dispatcher starts with the handlers registered now.
+\* A handler whose condition does not hold for the posted kwargs is not called (conditions only read c, which no
+\* handler kwarg overrides here, so this is decided when the dispatch begins)
+CondOK(h, c) == h.cond = -1 \/ h.cond = c
 QBegin(k) == /\ k \in DOMAIN tasks /\ tasks[k].st = "posted" /\ inh = NoH
              /\ LET S == {h \in reg : h.ev = tasks[k].ev} IN
-                /\ tasks' = [tasks EXCEPT ![k].todo = Ids(S), ![k].st = "run"]
+                /\ tasks' = [tasks EXCEPT ![k].todo = Ids({h \in S : CondOK(h, tasks[k].c)}), ![k].st = "run"]
                 /\ snapp' = [snapp EXCEPT ![k] = S]
              /\ act' = [op |-> "qbegin", k |-> k] /\ UNCHANGED <<reg, out, clr, inh, nops>>
 HasOut(k) == \E w \in out : w[1] = k
 PrioOf(k, h) == (CHOOSE x \in snapp[k] : x.id = h).prio
+\* the kwarg a the handler must see: its registered value wins over the posted one
+ArgOf(k, h) == IF (CHOOSE x \in snapp[k] : x.id = h).hk THEN "h" ELSE "p"
 \* the dispatcher of task k calls its next handler: highest priority first, never while a wait of an
 \* earlier handler of this task is outstanding
 QInvoke(k, h) ==
     /\ k \in DOMAIN tasks /\ tasks[k].st = "run" /\ inh = NoH /\ ~HasOut(k)
     /\ h \in tasks[k].todo /\ \A g \in tasks[k].todo : PrioOf(k, g) <= PrioOf(k, h)
     /\ tasks' = [tasks EXCEPT ![k].todo = @ \ {h}]
-    /\ inh' = <<k, h>> /\ act' = [op |-> "qinvoke", k |-> k, h |-> h]
+    /\ inh' = <<k, h>> /\ act' = [op |-> "qinvoke", k |-> k, h |-> h, a |-> ArgOf(k, h)]
     /\ UNCHANGED <<reg, snapp, out, clr, nops>>
 \* the running handler registers a wait on its QueuedEvent
 Wait == /\ inh # NoH /\ inh \notin out \cup clr /\ out' = out \cup {inh}
@@ -65,9 +75,9 @@ QCallback(k) == /\ k \in DOMAIN tasks /\ tasks[k].st = "run" /\ tasks[k].todo = 
                 /\ (inh = NoH \/ inh[1] # k)
                 /\ tasks' = [tasks EXCEPT ![k].st = "done"]
                 /\ act' = [op |-> "qcallback", k |-> k] /\ UNCHANGED <<reg, snapp, out, clr, inh, nops>>
-Next == \/ \E h \in Hid, e \in Ev, p \in Prio : AddQ(h, e, p)
+Next == \/ \E h \in Hid, e \in Ev, p \in Prio, hk \in HkSet, cond \in CondSet : AddQ(h, e, p, hk, cond)
         \/ \E h \in Hid : RemoveQ(h)
-        \/ \E e \in Ev : PostQ(e)
+        \/ \E e \in Ev, c \in CSet : PostQ(e, c)
         \/ \E k \in DOMAIN tasks, h \in Hid : QInvoke(k, h) \/ Clear(k, h) \/ SkipRemoved(k, h)
         \/ \E k \in DOMAIN tasks : QCallback(k) \/ QBegin(k)
         \/ Wait \/ QRet
